@@ -1,12 +1,13 @@
 (* C41 — executable entry points used by the correspondence check. *)
 From Coq Require Import List ZArith String Bool Arith.
 Import ListNotations.
-From TV Require Import Lib.Obs C41.Model C41.Spec.
+From TV Require Import Lib.Obs C41.Model C41.Spec Gen.C41_src.
 Local Open Scope Z_scope.
 
 (* one case: (_task_id before the call, num_processes, cpu_count(), max_restarts,
               os.fork() results, os.wait() results) *)
-Definition input := (option nat * option Z * nat * option Z * list Z * list (Z * Z))%type.
+(* ... preceded by ek = (exception kind raised by os.fork, by os.wait, when the scripted results run out) *)
+Definition input := ((nat * nat) * option nat * option Z * nat * option Z * list Z * list (Z * Z))%type.
 
 Definition onat (n : nat) : obs := OInt (Z.of_nat n).
 
@@ -25,8 +26,8 @@ Definition render_outcome (o : outcome) : obs :=
   | OChild r t => OList [OTag "child"; onat r; onat t]
   | OExit c => OList [OTag "exit"; OInt c]
   | OTooMany => OTag "RuntimeError"
-  | OOutOfForks => OTag "OutOfForks"
-  | OOutOfWaits => OTag "OutOfWaits"
+  | OForkErr k => OList [OTag "forkerr"; onat k]
+  | OWaitErr k => OList [OTag "waiterr"; onat k]
   | OAssert => OTag "AssertionError"
   end.
 
@@ -37,7 +38,7 @@ Definition render (r : result) : obs :=
   OList [OList (map render_event (r_trace r)); render_outcome (r_out r); render_task (r_task r)].
 
 Definition run_case (c : input) : obs :=
-  let '(pt, np, cpu, mr, fs, ws) := c in render (fork_processes pt np cpu mr fs ws).
+  let '(ek, pt, np, cpu, mr, fs, ws) := c in render (fork_processes_d src_desc ek pt np cpu mr fs ws).
 
 (* ---------- reading an observable back (None = not a well-formed observable) ---------- *)
 Definition znat (z : Z) : option nat := if z <? 0 then None else Some (Z.to_nat z).
@@ -75,11 +76,13 @@ Definition parse_outcome (o : obs) : option outcome :=
     if String.eqb t "child" then
       match znat a, znat b with Some r, Some k => Some (OChild r k) | _, _ => None end
     else None
-  | OList [OTag t; OInt c] => if String.eqb t "exit" then Some (OExit c) else None
+  | OList [OTag t; OInt c] =>
+    if String.eqb t "exit" then Some (OExit c)
+    else if String.eqb t "forkerr" then option_map OForkErr (znat c)
+    else if String.eqb t "waiterr" then option_map OWaitErr (znat c)
+    else None
   | OTag t =>
     if String.eqb t "RuntimeError" then Some OTooMany
-    else if String.eqb t "OutOfForks" then Some OOutOfForks
-    else if String.eqb t "OutOfWaits" then Some OOutOfWaits
     else if String.eqb t "AssertionError" then Some OAssert
     else None
   | _ => None
@@ -107,17 +110,17 @@ Definition not_rejected (v : verdict) : bool := match v with Reject => false | _
 (* the property on an observable: it must be well formed and the ideal
    supervisor of Spec.v must not reject it *)
 Definition check_case (c : input) (o : obs) : bool :=
-  let '(pt, np, cpu, mr, _, _) := c in
+  let '(ek, pt, np, cpu, mr, _, _) := c in
   match parse o with
   | None => false
-  | Some res => not_rejected (spec_check pt np cpu mr res)
+  | Some res => not_rejected (spec_check ek pt np cpu mr res)
   end.
 
 (* used by the harness for the input-distribution histogram only *)
 Definition verdict_case (c : input) (o : obs) : obs :=
-  let '(pt, np, cpu, mr, _, _) := c in
+  let '(ek, pt, np, cpu, mr, _, _) := c in
   match parse o with
   | None => OTag "unparsable"
-  | Some res => match spec_check pt np cpu mr res with
+  | Some res => match spec_check ek pt np cpu mr res with
                 | Accept => OTag "accept" | Reject => OTag "reject" | EnvBroken => OTag "envbroken" end
   end.
